@@ -175,7 +175,9 @@ CHECKS = {
          "HTML and manpage documents exist and their blocks are balanced (Lemmas/BalLaws.v: every writer of Model/Help.v and "
          "Model/Docs.v extends a document by a block-neutral piece; normalize keeps the documents of the metadata; append_meta "
          "builds well-bracketed group lists), hence C16_html_well_nested for every parser. Completeness: section items = "
-         "visible leaves (C12 theorem). Model/Docs.v "
+         "visible leaves (C12 theorem). C16_render_html_succeeds / C16_render_manpage_succeeds: for every such definition "
+         "render_html and render_manpage return (the documents hold no block the renderer answers with todo!(): Block::Meta in "
+         "HTML, Block::TermRef in roff). Model/Docs.v "
          "(extract_sections, collect_html, render_manpage document, render_html, Roff/escape/render_roff) is compared with the "
          "library on every run: documents token for token (cfg(bpaf_verif) capture hook), html and manpage byte for byte, plus "
          "explicit balanced/unbalanced token lists through the renderer hooks. render_markdown is not modelled (oracle only).",
@@ -183,7 +185,10 @@ CHECKS = {
  "C04": ("proof", "PARTIAL. Theorems in coq/Props/C04.v: the ledger bound `remaining <= number of items` holds initially and is kept by "
          "the evaluation of every parser from every state (through Reach.eval_reach_all), the item list is never changed; with "
          "it, the repetition loops (many/collect, some, count, last) never exhaust the fuel the model gives them -- the "
-         "consumed-something rule makes `len` strictly decrease -- for every inner parser. C04_total_without_adjacent: for "
+         "consumed-something rule makes `len` strictly decrease -- for every inner parser. C04_documentation_returns: for EVERY "
+         "definition (adjacent groups included) whose own documents are what the Doc API can build, render_html and "
+         "render_manpage return in the model (section extraction has enough fuel, the item writer's group loop terminates, no "
+         "todo!() block is met). C04_total_without_adjacent: for "
          "EVERY definition built without `adjacent` (every combinator of the model, arbitrarily nested: flags, arguments, "
          "positionals, any, subcommands, construct!, alternatives, optional/many/some/collect/count/last, fallback, guard, parse, "
          "map, hide, usage, group_help, pure, fail, boxed) whose named items have a name or variable and whose levels pass "
